@@ -12,6 +12,7 @@ from .. import walk as W
 def ordered_factors(f, e, depth=0):
     """ordered list of factor nodes of a product, inlining single-definition local names that are products"""
     out = []
+    e = W.canon_ast(f.node, e, e)
 
     def go(x, d):
         if isinstance(x, ast.BinOp) and isinstance(x.op, ast.Mult):
@@ -197,7 +198,8 @@ def rule_det_key(P):
                    "merges subsets with equal states but different residual weights", "power states are weighted subsets")
     f = P.func("wfsa/base.py::WFSA.determinize")
     r.looked_at(f)
-    loops = [n for n in walk_live(f.node) if isinstance(n, ast.For) and isinstance(n.iter, ast.Call) and W.call_name(n.iter) == "_powerarcs"]
+    gens = [g.name for g in P.funcs.values() if g.outer is f and any(isinstance(n, ast.Yield) for n in walk_live(g.node))]
+    loops = [n for n in walk_live(f.node) if isinstance(n, ast.For) and isinstance(n.iter, ast.Call) and W.call_name(n.iter) in gens]
     if len(loops) != 1 or not isinstance(loops[0].target, ast.Tuple) or len(loops[0].target.elts) != 3:
         raise AnalysisError("determinize: loop over _powerarcs(P) not found")
     lp = loops[0]
